@@ -103,3 +103,18 @@ def run(F, R):
                 R.check(via and enc, "R32.3", "PageInfo.%s:from-edges.%s" % (fld, want), "%s:%s" % (b.file, line), "edges.%s().map(encode_cursor)" % want,
                         "%s is computed through %s (encode=%s)" % (fld, names, enc))
     R.floor("R32.3", "PageInfo cursor fields checked", n, 4)
+
+    R.rule("R32.4", "every supplied cursor is decoded (a cursor string is never treated as absent): on the Some arm of the match on `after` / `before`, every "
+                    "path to the page-fetching closure passes through CursorType::decode_cursor")
+    n4 = 0
+    for (sbb, place, adt, arms, other, vmap) in qw.enum_switches(r"core::option::Option$"):
+        nm = qw.local_name(place[0]) if place else None
+        if nm not in ("after", "before") or arms.get("Some") is None:
+            continue
+        n4 += 1
+        for f in fcall:
+            skip = f.bb in qw.reachable(arms["Some"], avoid=[c.bb for c in dec])
+            R.check(not skip, "R32.4", "supplied-cursor-always-decoded:" + nm, "%s:%s" % (qw.file, qw.stmts(sbb)[-1][2] if qw.stmts(sbb) else "?"),
+                    "Some(%s) always reaches decode_cursor" % nm,
+                    "a supplied `%s` cursor can reach the closure without being decoded (it is handed on as None): an undecodable cursor is accepted and a valid one is ignored" % nm)
+    R.floor("R32.4", "matches on the cursor arguments", n4, 2)
